@@ -184,7 +184,10 @@ def _fallback(ctx: Ctx, fi: FunctionInfo, decs) -> None:
             continue
         if not any(e.kind == "bind" and e.value is not None and "next(" in ast.unparse(e.value) for e in d.src.effects):
             k0, v0 = d.src.terminal()
-            if k0 == "return" and isinstance(v0, ast.Tuple) and len(v0.elts) == 2 and not isinstance(v0.elts[1], ast.Constant) \
+            sp0 = fi.param_names()[0]
+            reads_text = any(e.value is not None and any(w in ast.unparse(e.value) for w in (f".join({sp0})", f"{sp0}.read(", f"{sp0}.readline(", f"{sp0}.readlines(", f"list({sp0})", f"tee({sp0})"))
+                             for e in d.src.effects)
+            if k0 == "return" and isinstance(v0, ast.Tuple) and len(v0.elts) == 2 and not isinstance(v0.elts[1], ast.Constant) and reads_text \
                     and not any(e.kind == "for" for e in d.src.effects):
                 # an answer computed from the text without asking the tokenizer for its first parameter (a pattern match on the raw text ..):
                 # what counts as "the first key is VERSION" is then decided by something other than the parser that will read the file
